@@ -216,7 +216,6 @@ theorem cinv_stepVerify (c : Ctl) (h : CInv c) (a : String) (rwc woc : Option (L
           · exact h
           · split
             · exact h
-            · exact h
             · split
               · exact h
               · simp only
